@@ -188,8 +188,12 @@ def run(ctx):
                         if D == 3 and (cache == 3 or tk == "affine"):
                             continue
                     else:
-                        depth = 5 if D == 1 else 4
-                        if D == 3 and level == 2 and depth == 4 and cache != 1:
+                        depth = 4
+                        if D == 1 and cache == 1 and tk == "none":
+                            depth = 5
+                        if D == 3 and (cache != 1 or tk == "log"):
+                            depth = 3
+                        if level == 2 and D == 2 and cache == 3 and tk != "none":
                             depth = 3
                     cfgs.append((D, level, cache, depth, tk))
     cfgs.sort(key=lambda c: -(c[3] * 10 + c[1] + c[0]))
